@@ -69,6 +69,13 @@ var cfgs = []cfg{
 	{3, 100, 99},         // empty range
 	{2, 100, 90},         // inverted range: MaxSubscribers negative
 	{7, 1000, 1001},      // range smaller than a block
+	{10, 5, -3},          // negative range end: accepted, MaxSubscribers negative
+	// rejected by NewManager (they used to wrap in uint16 and hand out overlapping blocks)
+	{1024, 1024, 70000},
+	{1024, -1000, 65535},
+	{70000, 1, 65535},
+	{-5, 1024, 65535},
+	{100, 65536, 65536},
 }
 
 var modes = []string{"bulk", "trad", "off"}
@@ -596,6 +603,10 @@ func (r *run) Do(op string) string {
 		m, err := nat.NewManager(nat.ManagerConfig{Interface: "verif0", PortsPerSubscriber: pps,
 			PortRangeStart: rs, PortRangeEnd: re}, zap.NewNop())
 		if err != nil {
+			if strings.Contains(err.Error(), "invalid") {
+				r.m = nil
+				return "invalid"
+			}
 			return "error " + err.Error()
 		}
 		r.m = m
